@@ -1,5 +1,6 @@
 PROP = dict(
         coq="Properties/C17.v",
+        tie_coq=["Properties/TieC17.v"],
         workloads=[
             dict(name="market-random", go_test="TestC17", runner="C17",
                  env=dict(quick=dict(VERIF_CASES=400), thorough=dict(VERIF_CASES=6000))),
